@@ -171,9 +171,10 @@ class AbstractDateTime(AnyAtomicType):
 
         if hour == 24 and minute == second == microsecond == 0:
             hour = 0
-            if year == 9999 and month == 12 and day == 31:
+            if month == 12 and day == 31 and not (1 <= year < 9999):
+                # the next day is in another year that is out of the range of datetime.datetime
                 delta = _ZERO_DELTA
-                year = 10000
+                year = year + 1 if year != -1 else 1
                 month = 1
                 day = 1
             else:
